@@ -13,6 +13,7 @@ import EaselModel.Miniapps.AlistatInfo
 import EaselModel.Miniapps.Compstruct
 import EaselModel.Miniapps.StoTools
 import EaselModel.Miniapps.Compalign
+import EaselModel.Miniapps.Small
 /-! # C13 — command-line front end of the reference functions: `runTool tool argv files` = predicted stdout -/
 namespace EaselModel.Miniapps
 
@@ -231,9 +232,42 @@ def runReformatMsa (p : Parsed) (infmt outfmt : String) (src : List Char) : Opti
 /-- esl-reformat [-d -l -n -r -u -x --gapsym c --rename s --replace a:b --mingap [--keeprf] --nogap --wussify --dewuss --fullwuss
     --namelen n] --informat <fmt> <fmt> <file> -/
 def runReformat (argv : List String) (files : String → Option (List Char)) : Option String := do
-  let p ← parseArgs ["-d", "-l", "-n", "-r", "-u", "-x", "--mingap", "--nogap", "--keeprf", "--wussify", "--dewuss", "--fullwuss"]
+  let p ← parseArgs ["-d", "-l", "-n", "-r", "-u", "-x", "--mingap", "--nogap", "--keeprf", "--wussify", "--dewuss", "--fullwuss", "--small"]
     ["--gapsym", "--informat", "--rename", "--replace", "--namelen", "--ignore", "--acceptx"] argv {}
   let infmt ← p.val? "--informat"
+  if p.has "--small" then
+    -- `--small`: Pfam in, aligned FASTA or Pfam out, streamed (`regurgitate_pfam_as_afa` / `regurgitate_pfam_as_pfam`)
+    if infmt != "pfam" then none
+    if p.has "--mingap" || p.has "--nogap" || p.has "--keeprf" || p.has "--wussify" || p.has "--dewuss" || p.has "--fullwuss" then none
+    if (p.val? "--namelen").isSome || (p.val? "--ignore").isSome || (p.val? "--acceptx").isSome then none
+    if (p.has "-d" && p.has "-r") || (p.has "-l" && p.has "-u") || (p.has "-n" && p.has "-x") then none
+    if ["--rename", "--replace", "--gapsym"].any (fun k => ((p.val? k).getD "").startsWith "-") then none
+    let [outfmt, fn] := p.pos | none
+    let gapsym ← match p.val? "--gapsym" with
+      | some v => (match v.toList with | [c] => some (some c) | _ => none)
+      | none => some none
+    let repl ← match p.val? "--replace" with
+      | some v =>
+        let cs := v.toList
+        let mid := cs.length / 2
+        if cs.length % 2 = 1 && cs.getD mid ' ' = ':' then some (some (cs.take mid, cs.drop (mid + 1))) else none
+      | none => some none
+    let o : ReformatOpts := { replace := repl, lower := p.has "-l", upper := p.has "-u", rna := p.has "-r", dna := p.has "-d",
+                              iupacN := p.has "-n", xbad := p.has "-x", gapsym := gapsym, rename := (p.val? "--rename").map String.toList }
+    let src ← files fn
+    if src.contains '\r' || src.getLast? != some '\n' then none
+    let ls := fileLines src
+    if outfmt == "afa" then
+      let m := String.ofList (unlines (← Small.reformatSmallAfa o ls))
+      -- the non-small reference on the same file promises the same bytes: where it is defined the two must agree
+      let pN : Parsed := { p with flags := p.flags.filter (· != "--small") }
+      match runReformatMsa pN "pfam" "afa" src with
+      | some n => if n == m then return m else none
+      | none => return m
+    else if outfmt == "pfam" then
+      if (p.val? "--rename").isSome then none
+      return ← (Small.reformatSmallPfamAll o (ls.length + 2) ls).map fun out => String.ofList (unlines out)
+    else none
   -- `--ignore s` / `--acceptx s` edit the input map of the SEQUENCE reader: alignment output refuses them, an alignment file read
   -- for unaligned output never consults that map, a FASTA file drops the ignored characters and reads the accepted ones as X
   let ignore := ((p.val? "--ignore").getD "").toList
@@ -626,7 +660,7 @@ def b2c (b : List UInt8) : List Char := b.map fun x => Char.ofNat x.toNat
 
 /-- esl-alimask  <msafile> <maskfile> | -t <msafile> <coords> | -g <msafile> | --rf-is-mask <msafile>  (not -p, not --small) -/
 def runAlimaskFull (argv : List String) (files : String → Option (List Char)) : Option (String × List (String × List Char)) := do
-  let p ← parseArgs ["-t", "-g", "-p", "--pallgapok", "--rf-is-mask", "--t-rf", "--t-rmins", "--keepins", "-q", "--dna", "--rna", "--amino"]
+  let p ← parseArgs ["-t", "-g", "-p", "--pallgapok", "--rf-is-mask", "--t-rf", "--t-rmins", "--keepins", "-q", "--dna", "--rna", "--amino", "--small"]
     ["--gapthresh", "--informat", "--outformat", "-o", "--fmask-rf", "--fmask-all", "--gmask-rf", "--gmask-all",
      "--pfract", "--pthresh", "--pavg", "--ppcons", "--pmask-rf", "--pmask-all"] argv {}
   let abc ← tabcOf p
@@ -671,6 +705,26 @@ def runAlimaskFull (argv : List String) (files : String → Option (List Char)) 
       ofile := p.val? "-o", fmaskRf := p.val? "--fmask-rf", fmaskAll := p.val? "--fmask-all",
       gmaskRf := p.val? "--gmask-rf", gmaskAll := p.val? "--gmask-all",
       pp := ppCfg, pmaskRf := p.val? "--pmask-rf", pmaskAll := p.val? "--pmask-all" }
+  if p.has "--small" then
+    -- `--small`: first pass = the mask (same computation on the same file), second pass = `esl_msafile2_RegurgitatePfam` of the FIRST
+    -- record with that mask (input spacing kept, base pairs broken by the mask removed from SS_cons / SS when the alphabet is nucleic)
+    if infmt != "pfam" || (p.val? "--outformat").isSome then none
+    if !(p.has "--dna" || p.has "--rna" || p.has "--amino") then none
+    match mode with
+    | .gapfreq _ => none
+    | .postprob => none
+    | _ => pure ()
+    if o.ofile.isSome || o.fmaskRf.isSome || o.fmaskAll.isSome || o.keepins then none
+    if src.contains '\r' || src.getLast? != some '\n' then none
+    let rd ← Ali.readerOf "pfam"
+    let m ← match rd (EaselModel.Msafile.splitLines (c2b src)) with
+      | (.ok m, _) => some m
+      | _ => none
+    let (useme, _, _, _, _, _) ← Ali.alimaskMask o m
+    if !useme.any id then none
+    match Small.regurgitate { useme := some useme, nucleic := abc.isNucleic } (some m.alen) (fileLines src) with
+    | .ok (out, _, _, _) => return (String.ofList (unlines out), [])
+    | .error _ => none
   let (out, written) ← Ali.alimask o infmt (c2b src)
   some (b2s out, written.map fun (f, b) => (f, b2c b))
 
@@ -685,10 +739,25 @@ def fabcOf (p : Parsed) : Option (EaselModel.Msafile.Abc × Ali.TAbc) :=
 /-- esl-alimanip [--seq-k f [--k-reorder] | --seq-r f | --reorder f] [--lnfract x] [--lxfract x] [--lmin n] [--lmax n] [--rffract x]
     [--detrunc n] [--xambig n] [--rm-gc tag] [--num-rf] [--num-all] [--outformat fmt] --informat (stockholm|pfam) (--dna|--rna|--amino) <msafile> -/
 def runAlimanip (argv : List String) (files : String → Option (List Char)) : Option String := do
-  let p ← parseArgs ["--k-reorder", "--num-rf", "--num-all", "--dna", "--rna", "--amino"]
+  let p ← parseArgs ["--k-reorder", "--num-rf", "--num-all", "--dna", "--rna", "--amino", "--small"]
     ["--seq-k", "--seq-r", "--reorder", "--lnfract", "--lxfract", "--lmin", "--lmax", "--rffract", "--detrunc", "--xambig", "--rm-gc",
      "--informat", "--outformat"] argv {}
   let (fa, ta) ← fabcOf p
+  if p.has "--small" then
+    -- `--small --seq-k|--seq-r <list>`: every record regurgitated (`esl_msafile2_RegurgitatePfam`), sequence / #=GS / #=GR lines filtered by name
+    if p.vals.any (fun kv => !["--seq-k", "--seq-r", "--informat", "--outformat"].contains kv.1) || p.has "--k-reorder" || p.has "--num-rf" || p.has "--num-all" then none
+    if (p.val? "--informat").getD "pfam" != "pfam" || (p.val? "--outformat").getD "pfam" != "pfam" then none
+    let [fn] := p.pos | none
+    let src ← files fn
+    if src.contains '\r' || src.getLast? != some '\n' then none
+    let (keepMode, lf) ← match p.val? "--seq-k", p.val? "--seq-r" with
+      | some f, none => some (true, f)
+      | none, some f => some (false, f)
+      | _, _ => none
+    let names := (Ali.fileTokens (c2b (← files lf))).map b2c
+    if names.eraseDups.length != names.length then none
+    let ls := fileLines src
+    return ← (Small.alimanipSmall keepMode names (ls.length + 2) ls).map fun out => String.ofList (unlines out)
   let infmt ← p.val? "--informat"
   let outfmt := (p.val? "--outformat").getD "stockholm"
   if !msaFormats.contains outfmt then none
@@ -748,12 +817,38 @@ def runAfetchFull (argv : List String) (files : String → Option (List Char)) :
       | none, false => some (b2s out, [])
       | _, _ => none
 
+/-- `esl-alistat --small [-1] --informat pfam (--dna|--rna|--amino) <file>`: the numbers of the non-small summary that do not need the
+    sequences in memory (no Smallest / Largest / Average identity); `Total # residues` is the recomputed count (the tool sums
+    per-column fractional counts and rounds to the nearest integer since edf1c28) -/
+def runAlistatSmall (p : Parsed) (files : String → Option (List Char)) : Option (String × List (String × List Char)) := do
+  if !fmtIs p "--informat" "pfam" then none
+  if !p.vals.all (fun kv => kv.1 == "--informat") || p.has "--noambig" || p.has "--weight" then none
+  let V ← match p.has "--dna", p.has "--rna", p.has "--amino" with
+    | true, false, false => some Ali.viewsDna
+    | false, true, false => some Ali.viewsRna
+    | false, false, true => some Ali.viewsAmino
+    | _, _, _ => none
+  let [fn] := p.pos | none
+  let src := c2b (← files fn)
+  let ls := EaselModel.Msafile.splitLines src
+  let recs ← Ali.readAllSpans (EaselModel.Msafile.stockholmRead (EaselModel.Msafile.stockholmCfg (some V.f))) (ls.length + 2) ls []
+  if recs.isEmpty then none
+  let vs ← (recs.mapIdx fun i r => Ali.viewOf V (i + 1) r.1 []).mapM id
+  let one (v : Ali.AliView) : String :=
+    let crow := v.rows.map fun r => r.map fun x => V.c.syms.getD x '-'
+    let st := aliStats V.c crow
+    let nm := v.name.map Ali.bytesStr
+    if p.has "-1" then Small.smallOneLine v.nali nm "Pfam" st.nseq v.alen st.nres (avgLen st.nres st.nseq)
+    else Small.renderSmall (Small.alistatLines v.nali nm "Pfam" st.nseq v.alen st.nres st.small st.large (avgLen st.nres st.nseq) (pct0 (avgId V.c crow 1000)))
+  some ((if p.has "-1" then Small.smallOneLineHeader else "") ++ String.join (vs.map one), [])
+
 /-- esl-alistat [-1] [--list f] [--icinfo f] [--rinfo f] [--iinfo f] [--cinfo f [--noambig]] --informat (stockholm|pfam) (--dna|--rna|--amino) <msafile>:
     digital-mode Stockholm input, summary on stdout, the optional output files -/
 def runAlistatFull (argv : List String) (files : String → Option (List Char)) : Option (String × List (String × List Char)) := do
-  let p ← parseArgs ["--dna", "--rna", "--amino", "-1", "--noambig", "--weight"]
+  let p ← parseArgs ["--dna", "--rna", "--amino", "-1", "--noambig", "--weight", "--small"]
     ["--informat", "--list", "--icinfo", "--rinfo", "--iinfo", "--cinfo", "--pcinfo", "--psinfo", "--bpinfo"] argv {}
   let infmt ← p.val? "--informat"
+  if p.has "--small" then return ← runAlistatSmall p files
   if infmt != "stockholm" && infmt != "pfam" then (runAlistat argv files).map fun o => (o, []) else
   let V ← match p.has "--dna", p.has "--rna", p.has "--amino" with
     | true, false, false => some Ali.viewsDna
